@@ -41,7 +41,8 @@ THEOREMS = {
             ("XV.Tz.tokens_are_source_slices", "XonshVerif.Properties.C08"), ("XV.Tz.tokenize_structure", "XonshVerif.Properties.C08"),
             ("XV.Ops.first_listed_is_longest", "XonshVerif.Properties.C09"), ("XV.Ops.prefix_of_prefixes", "XonshVerif.Properties.C09")],
     "C11": [("XV.Helpers.error_wellformed", _HELP)],
-    "C10": [("XV.Tz.fstring_tokens_are_source_slices", "XonshVerif.Properties.C08"), ("XV.Tz.tokens_in_position_order", "XonshVerif.Properties.C08"), ("XV.Tz.fstring_tokens_balanced", "XonshVerif.Properties.C10"), ("XV.Tz.fstring_prefix_depth_defined", "XonshVerif.Properties.C10"),
+    "C10": [("XV.Concat.concat_preserves_text_and_fields", "XonshVerif.Proofs.Concat"), ("XV.Concat.joined_parts_are_normalised", "XonshVerif.Proofs.Concat"), ("XV.Concat.constant_only_without_fstring", "XonshVerif.Proofs.Concat"),
+            ("XV.Tz.fstring_tokens_are_source_slices", "XonshVerif.Properties.C08"), ("XV.Tz.tokens_in_position_order", "XonshVerif.Properties.C08"), ("XV.Tz.fstring_tokens_balanced", "XonshVerif.Properties.C10"), ("XV.Tz.fstring_prefix_depth_defined", "XonshVerif.Properties.C10"),
             ("XV.Tz.tokenizeLines_fbal", "XonshVerif.Proofs.FstringBalance"), ("XV.Tz.handleFstringProgs_fstep", "XonshVerif.Proofs.FstringBalance"),
             ("XV.Tz.tokens_are_source_slices", "XonshVerif.Properties.C08"), ("XV.Tz.tokenize_total", "XonshVerif.Properties.C03")],
     "C04": [("XV.Span.span_end_is_last_significant_token", "XonshVerif.Proofs.Span"), ("XV.Act.nullable_sound", "XonshVerif.Properties.C04"), ("XV.Act.required_fields_never_none", "XonshVerif.Properties.C04")],
@@ -389,6 +390,13 @@ def corr_helpers(pid, kinds):
                 if g:
                     srcs.append(g[0])
             srcs += ["if a:\n    pass\n\n\n", "def f():\n    return\n", "class A:\n    def f(self):\n        x = (1,\n 2)\n\n", "x = 1", "", "\n", "pass\n# c\n"]
+        if "concat" in kinds:
+            from harness.props import c10
+
+            cs = [c[1] for c in c10.build_inputs(tier) if c[0] in ("pool", "product", "concat-multiline", "gen", "spec-then-continuation")]
+            srcs += cs if tier != "quick" else r.sample(cs, min(len(cs), 1500 * n))
+            srcs += ["x = 'a' 'b'\n", "x = b'a' b'b'\n", "x = u'a' 'b'\n", "x = 'a' u'b'\n", "x = b'a' 'b'\n", "x = f'{y}' b'z'\n", "x = '' f'{y}' ''\n", "x = 'a' f'' 'b'\n",
+                     "x = p'a' 'b'\n", "x = pf'{y}' 'c'\n", "x = ('a'\n  f'b{c}d'\n  'e')\n", "x = f'{a}' f'{b}'\n", "x = f'a' f'b'\n", "x = f'' f''\n", "x = ''\n", "x = f''\n"]
         if "builderr" in kinds:
             srcs += list(c11.INVALID_SNIPPETS) + ["ok = 1\n\n" + s for s in c11.INVALID_SNIPPETS]
         bad = corr.run_helper_correspondence(rep, corr.helper_cases(srcs), kinds)
@@ -447,7 +455,7 @@ CORR = {
     "C15": [corr_peg("C15", n_quick=150, n_thorough=3000), corr_peg("C15", n_quick=150, n_thorough=3000, verbose=True), corr_gate],
     "C08": [corr_tok("C08")],
     "C09": [corr_tok("C09")],
-    "C10": [corr_tok("C10")],
+    "C10": [corr_tok("C10"), corr_helpers("C10", ("concat",))],
     "C14": [corr_tok("C14"), corr_pipeline("C14")],
     "C12": [corr_getlines("C12")],
 }
